@@ -46,7 +46,7 @@ PROBES = ["kind:p2pk", "kind:p2pkh", "kind:multisig", "kind:p2sh-multisig", "kin
           "sighash_direct_256", "codeseparator_script", "noncommitted_change_still_valid", "committed_change_invalidates",
           "revalidate_fresh_equal", "default_flags_verdict_checked", "inputs>=253", "spendable_form_text", "spendable_form_dict", "spendable_form_bin", "wire_big_inputs", "wire_big_outputs",
           "wire_big_out_script", "wire_big_in_script", "wire_big_witness_item", "wire_big_witness_count",
-          "oneshot_create_signed_tx", "oneshot_refused_missing_key", "check_solution_entry"]
+          "oneshot_create_signed_tx", "oneshot_refused_missing_key", "check_solution_entry", "sighash_script_code>=253", "pass_over_short_signature"]
 # (wire_tx_* probes are fired by the wire_tx step, which only the S-WIRE planner emits; they are declared there)
 
 _STD = None
@@ -87,6 +87,28 @@ def _mn(r, kind):
     return m, n
 
 
+def _plan_sig_len(keys, sigkind, spec, shape, signer):
+    """planner side, by the models only: length of DER + hash-type byte of the SIGHASH_ALL signature `signer` makes on the
+    single input described by spec (None when the model cannot tell)"""
+    W = _W()
+    W.sig, W.forkid, W.single = sigkind, sigkind in ("bch", "btg"), sigkind == "grs"
+    W.keys = [{"d": k["d"], "compressed": k["compressed"], "P": C.mul_g(k["d"])} if i in spec["keys"] else None for i, k in enumerate(keys)]
+    spk = _puzzle(W, spec)[0]
+    m = {"version": shape["version"], "locktime": shape["locktime"], "outs": shape["outs"],
+         "ins": [{"prev": bytes.fromhex(spec["prev"]), "idx": spec["idx"], "script": b"", "seq": spec["seq"], "witness": []}]}
+    cp = _Copy(None, m, [{"value": spec["value"], "script": spk}])
+    cp.specs = [spec]
+    dg = _sign_digests(W, cp, 0, 1 | (sh.FORKID if W.forkid else 0))
+    if not dg:
+        return None
+    z = next(iter(dg))
+    r_, s_, _, _ = C.sign_rfc6979(keys[signer]["d"], z)
+    if s_ > sv.HALF_N:
+        s_ = C.n - s_
+    ln = lambda v: (v.bit_length() + 8) // 8
+    return 6 + ln(r_) + ln(s_) + 1
+
+
 def gen_plan(rng, tier, index, config=None):
     r = rng.fork("ops")
     net = config or r.weighted([("BTC", 50), ("XTN", 8), ("LTC", 10), ("BCH", 10), ("BTG", 10), ("DOGE", 4), ("DASH", 4),
@@ -100,9 +122,16 @@ def gen_plan(rng, tier, index, config=None):
         hd = {"seed": r.bytes(16).hex(), "paths": []}
         root = mb32.master(bytes.fromhex(hd["seed"]))
 
+    used_d = set()
+
     def new_key():
         if hd is None or root is None:
-            return {"d": r.between(1, C.n - 1), "compressed": True}
+            # (shapes: a secret shorter than 32 bytes, the extremes)
+            while True:
+                d = r.weighted([(r.between(1, C.n - 1), 8), (r.between(1, (1 << 248) - 1), 1), (r.between(1, 1 << 32), 0.5), (C.n - 1, 0.2)])
+                if d not in used_d:
+                    used_d.add(d)
+                    return {"d": d, "compressed": True}
         from dsim.models import bip32 as mb32
         while True:
             a, b, hard = r.below(3), r.below(1000), r.chance(0.4)
@@ -210,8 +239,10 @@ def gen_plan(rng, tier, index, config=None):
             steps.append({"op": "revert", "copy": cp})
             steps.append({"op": "validate", "copy": cp, "how": "each"})
         elif op == "sighash":
-            steps.append({"op": "sighash", "copy": cp, "idx": r.below(nin + 1), "script": r.pick(["puzzle", "codesep", "random"]),
-                          "seed": r.bits(32), "all256": r.chance(0.2), "ht": r.bits(8)})
+            steps.append({"op": "sighash", "copy": cp, "idx": r.below(nin + 1), "script": r.pick(["puzzle", "codesep", "random", "sized"]),
+                          "seed": r.bits(32), "all256": r.chance(0.2), "ht": r.bits(8),
+                          "len": r.weighted([(0, 1), (1, 1), (75, 1), (76, 1), (252, 2), (253, 3), (254, 2), (255, 3), (256, 2), (257, 1), (520, 1),
+                                             (521, 1), (0xFFFF, 1), (0x10000, 1), (r.between(0, 700), 4)])})
         elif op == "readonly":
             steps.append({"op": "readonly", "copy": cp})
         elif op == "wire_big":
@@ -236,7 +267,7 @@ def gen_plan(rng, tier, index, config=None):
             steps.append({"op": "permute", "passes": passes, "perm": perm})
     steps.append({"op": "validate", "copy": "c0", "how": "each"})
     # scripted scenarios that put the shared transaction into the in-flight states random histories rarely reach
-    scen = r.weighted([(None, 80), ("stale_front", 10), ("commit_sweep", 10)]) if config is None else None
+    scen = r.weighted([(None, 76), ("stale_front", 9), ("commit_sweep", 9), ("short_sig", 6)]) if config is None else None
     ms = [j for j, inp in enumerate(inputs) if "multisig" in inp["kind"] and inp["m"] >= 2 and len(inp["keys"]) <= 6]
     if scen == "stale_front" and ms and outputs:
         # a later-listed key signs without committing to the outputs, an earlier-listed key signs ALL, an output changes
@@ -267,6 +298,40 @@ def gen_plan(rng, tier, index, config=None):
             steps.append({"op": "validate", "copy": "c0", "how": "each"})
             steps.append({"op": "revert", "copy": "c0"})
         steps.append({"op": "validate", "copy": "c0", "how": "each"})
+    elif scen == "short_sig" and hd is None:
+        # one key at a time over a signature of unusual length: the planner grinds an output amount until the model's
+        # (deterministic, low-S) signature by the first cosigner has a 31-byte r or s, i.e. DER + hash type <= 70 bytes
+        witness_ok = sigkind in ("btc", "grs") and net not in ("DOGE", "DASH")
+        kind = r.pick(["p2wsh-multisig", "p2sh-p2wsh-multisig", "p2wsh-multisig", "multisig", "p2sh-multisig"] if witness_ok
+                      else ["multisig", "p2sh-multisig"])
+        ks = r.sample(range(len(keys)), 3)
+        for k in ks:
+            keys[k]["compressed"] = True
+        mm = r.pick([2, 2, 3])
+        spec = {"kind": kind, "m": mm, "keys": ks, "value": r.pick([10**6, 5 * 10**8, 123456789]), "prev": r.bytes(32).hex(), "idx": r.pick([0, 1]),
+                "seq": 0xFFFFFFFF}
+        first = r.pick(ks)
+        out_script = r.bytes(22).hex()
+        base = r.between(1000, 900000)
+        found = None
+        for v in range(base, base + 500):
+            n_ = _plan_sig_len(keys, sigkind, spec, {"version": 1, "locktime": 0, "outs": [{"value": v, "script": bytes.fromhex(out_script)}]}, first)
+            if n_ is not None and n_ <= 70:
+                found = v
+                break
+        v = found if found is not None else base
+        rest = [k for k in ks if k != first]
+        r.shuffle(rest)
+        inputs = [spec]
+        steps = [{"op": "build", "copy": "c0", "inputs": inputs, "outputs": [{"value": v, "script": out_script}], "version": 1, "locktime": 0},
+                 {"op": "sign", "copy": "c0", "keys": [first], "supply": r.pick(["dict", "wifs"]), "hash_type": None, "inputs": None},
+                 {"op": "validate", "copy": "c0", "how": "each"}]
+        if r.chance(0.4):
+            steps.append({"op": "send", "copy": "c0", "dst": "c1", "enc": r.pick(["hex", "bin+unspents"])})
+        tgt = "c1" if len(steps) == 4 else "c0"
+        for k in rest[: mm - 1] + rest[mm - 1:][: r.below(2)]:
+            steps.append({"op": "sign", "copy": tgt, "keys": [k], "supply": r.pick(["dict", "wifs", "keychain"]), "hash_type": None, "inputs": None})
+            steps.append({"op": "validate", "copy": tgt, "how": "each"})
     backend = "pure" if (config is None and sigkind == "btc" and hd is None and r.chance(0.03)) else "native"
     if net == "GRS":
         # the GRS network object needs the groestlcoin_hash package (absent here); its Tx / Solver / SolutionChecker
@@ -729,6 +794,10 @@ def _op_sign(ctx, W, st):
     if any(k < 0 for k in st["keys"]):
         ctx.fault("wrong_key_pass")
     before_m, before_u = copy.deepcopy(cp.m), copy.deepcopy(cp.u)
+    for j_ in range(len(before_m["ins"])):
+        if any(8 < len(it) <= 70 and it[0] == 0x30 and it != PLACEHOLDER for it in _unlock_items(before_m, j_)):
+            ctx.probe("pass_over_short_signature")
+            ctx.nontrivial = True
     before_v = _verdicts(W, cp)
     snap_before = cp.obj.as_bin(include_unspents=True) if not cp.obj.missing_unspents() else None
     faulted = bool(st.get("db_fault") or st.get("clear_secrets")) and str(st.get("supply")).startswith("keychain")
@@ -1305,6 +1374,11 @@ def _script_for(W, cp, st, idx):
         # code separators in front, in the middle (opcode aligned) and at the end, plus a push containing 0xab
         return b"\xab" + sh.push(b"\xab\xab") + base + b"\xab" + sh.push(struct.pack("<I", r)) + b"\xab\xab"
     x = hashlib.sha256(struct.pack("<I", r)).digest()
+    if kind == "sized":
+        # a well-formed script code of an exact length (data-less opcodes only), to sit on the compact-size boundaries
+        ops = bytes([0x76, 0x87, 0xac, 0x61, 0x51, 0x75, 0xab if r & 1 else 0x61])
+        n = st.get("len", 0)
+        return bytes(ops[(x[i % 32] + i) % len(ops)] for i in range(n))
     return sh.push(x[: r % 33]) + bytes([0x76, 0xab, 0x87]) + sh.push(x) + b"\xac"
 
 
@@ -1318,6 +1392,8 @@ def _op_sighash(ctx, W, st):
     script = _script_for(W, cp, st, idx)
     if st["script"] == "codesep":
         ctx.probe("codeseparator_script")
+    if st["script"] == "sized" and len(script) >= 253:
+        ctx.probe("sighash_script_code>=253")
     hts = range(256) if st.get("all256") else [st["ht"], 1, 2, 3, 0x81, 0x82, 0x83, 0x41, 0xc3, 0]
     if st.get("all256"):
         ctx.probe("sighash_direct_256")
